@@ -762,4 +762,12 @@ def main(argv=None):
 
 
 if __name__ == "__main__":
-    main()
+    try:
+        main()
+    except SystemExit:
+        raise
+    except BaseException as e:  # noqa: BLE001
+        # a crash of the checker (or of importing the tree under test) is never a verdict: exit 3
+        traceback.print_exc()
+        print(f"ERROR checker crashed: {type(e).__name__}: {str(e)[:300]}")
+        sys.exit(3)
